@@ -666,6 +666,15 @@ func (s *ScopedKeyManager) DeriveFromKeyPathCache(
 	s.mtx.Lock()
 	defer s.mtx.Unlock()
 
+	// Private keys are only available while the manager is unlocked, no
+	// matter whether the key or its account happen to be cached.
+	if s.rootManager.WatchOnly() {
+		return nil, managerError(ErrWatchingOnly, errWatchingOnly, nil)
+	}
+	if s.rootManager.IsLocked() {
+		return nil, managerError(ErrLocked, errLocked, nil)
+	}
+
 	// First, try to look up the key itself in the proper cache, if the key
 	// is here, then we don't need to do anything further.
 	privKeyVal, err := s.privKeyCache.Get(kp)
@@ -686,12 +695,15 @@ func (s *ScopedKeyManager) DeriveFromKeyPathCache(
 		)
 	}
 
-	watchOnly := s.rootManager.WatchOnly()
-	private := !s.rootManager.IsLocked() && !watchOnly
+	// Accounts imported from an extended public key have no private key
+	// to derive from.
+	if acctInfo.acctKeyPriv == nil {
+		return nil, managerError(ErrWatchingOnly, errWatchingOnly, nil)
+	}
 
 	// Now that we have the account information, we can derive the key
 	// directly.
-	addrKey, err := s.deriveKey(acctInfo, kp.Branch, kp.Index, private)
+	addrKey, err := s.deriveKey(acctInfo, kp.Branch, kp.Index, true)
 	if err != nil {
 		return nil, err
 	}
